@@ -333,23 +333,37 @@ def rule_style_cache(ctx):
         for si, st in enumerate(blk["stmts"]):
             if st["k"] == "assign" and st["p"]["proj"] and st["p"]["proj"][-1].get("n") == "style":
                 stores.append((bi, si, strip(o._rvalue(st["r"], (bi, si), 0))))
+    # a local helper that latches the style it is handed (`self.remember(Style::VirtualMem, len)`) is a store at its call site
+    for bi, t in b.calls(lambda c: c.local and (c.target or "") in ctx.prog.by_short and not (c.target or "").endswith(("::vmem", "::file", "::ptrace"))):
+        hb = ctx.prog.by_short[CalleeView(t["callee"]).target][0]
+        ho = Origin(hb)
+        for hbi, hblk in enumerate(hb.blocks):
+            if hblk["cleanup"]:
+                continue
+            for hsi, hst in enumerate(hblk["stmts"]):
+                if hst["k"] == "assign" and hst["p"]["proj"] and hst["p"]["proj"][-1].get("n") == "style":
+                    hv = strip(ho._rvalue(hst["r"], (hbi, hsi), 0))
+                    if hv[0] == "agg" and hv[2] == "Some":
+                        inner = strip(dict(hv[3])["0"])
+                        if inner[0] == "param" and inner[1] - 1 < len(o.call_args(bi)):
+                            stores.append((bi, None, ("agg", hv[1], "Some", (("0", o.call_args(bi)[inner[1] - 1]),))))
     ctx.floor(R, "assignments to self.style", len(stores), 4)
     strat = {"VirtualMem": "vmem", "File": "file", "Ptrace": "ptrace"}
     for bi, si, v in stores:
         inner = strip(dict(v[3])["0"]) if v[0] == "agg" and v[2] == "Some" else None
         if inner is None or inner[0] != "agg":
-            ctx.unproven(R, ("store", "shape"), b.where(bi, si), "style is assigned %s" % show(v)[:80])
+            ctx.unproven(R, ("store", "shape"), b.where(bi, si) if si is not None else b.where(bi), "style is assigned %s" % show(v)[:80])
             continue
         name = inner[2]
         if name == "Unavailable":
             # all three failed: the three error values recorded
             ok = all(any(s[0] == "call" and s[1] == MR + "::" + fn for s in walk(inner)) for fn in ("vmem", "ptrace"))
-            ctx.check(ok, R, ("store", name), b.where(bi, si), "Unavailable is recorded with the errors of the failed strategies", "Unavailable is recorded from %s" % show(inner)[:120])
+            ctx.check(ok, R, ("store", name), b.where(bi, si) if si is not None else b.where(bi), "Unavailable is recorded with the errors of the failed strategies", "Unavailable is recorded from %s" % show(inner)[:120])
             continue
         fn = strat.get(name)
         dnf = conditions(b, bi, origin=o, relevant=lambda a: a[0] == "discr" and strip(a[1])[0] == "call" and strip(a[1])[1] == MR + "::" + (fn or "?"))
         ok = fn is not None and bool(dnf) and all(any(v_ == 0 for (_, v_) in c) for c in dnf)
-        ctx.check(ok, R, ("store", name), b.where(bi, si), "style = %s is cached only after %s(..) returned Ok" % (name, fn), "style = %s can be cached although %s(..) did not succeed" % (name, fn))
+        ctx.check(ok, R, ("store", name), b.where(bi, si) if si is not None else b.where(bi), "style = %s is cached only after %s(..) returned Ok" % (name, fn), "style = %s can be cached although %s(..) did not succeed" % (name, fn))
     # strategy calls use (pid/file, src, dst) of this call
     n = 0
     for fn in ("vmem", "file", "ptrace"):
